@@ -90,7 +90,7 @@ func (c *Ctx) nameablePredicates() []*ssa.Function {
 // nameableRule (C01): a type is spelled out in emitted code only if it can be named in the generated package.
 func (c *Ctx) nameableRule(rule string) {
 	r := c.R
-	r.Rule(rule, "type names in emitted code: a conversion T(x) (NewTypecast) and the slice copies (make([]E, …), E(e)) spell a type out; each is built only after a nameability test on that type answered true – a function that for a *types.Named answers true only if the type has no package, belongs to the current package or is exported, and that descends through pointer, slice and array types (an unexported type of an imported package, `[]model.tag`, cannot be written here)")
+	r.Rule(rule, "type names in emitted code: a conversion T(x) (NewTypecast) and the slice copies (make([]E, …), E(e)) spell a type out; each is built only after a nameability test on that type answered true – a function that for a *types.Named answers true only if the type has no package, belongs to the current package or is exported, that answers true for a package the setup file does not import only if that package's own name is not the name of another import, and that looks into pointer, slice, array, channel and map types, parameters and results of func types, fields of struct types and type arguments (an unexported type of an imported package, `[]model.tag`, `[]chan model.event`, cannot be written here)")
 	preds := c.nameablePredicates()
 	r.Check(rule, "nameability-test-exists", "pkg/builder", len(preds) > 0, "pkg/builder has no function that tells whether a type can be named in the generated package (true for *types.Named ⇒ no package ∨ current package ∨ exported): unexported types of imported packages are spelled out")
 	if len(preds) == 0 {
@@ -118,6 +118,87 @@ func (c *Ctx) nameableRule(rule string) {
 			ok := len(sub) > 0 && sub.Implies(predCall(func(a *core.Term) bool { return a.IsCallTo(elem) }))
 			r.Check(rule, FnKey(p)+":descends:"+shape, c.Pos(p.Pos()), ok, "the nameability test does not look at the element type of "+shape+" (a `[]*model.tag` would be called nameable)")
 		}
+	}
+	for _, p := range preds {
+		// … and through every other way a type can mention another: the answer false is reached when the test fails on
+		// the channel's element, the map's key and element, a parameter or result (the tuple's members), a struct's field,
+		// a type argument
+		fails := func(argOK func(*core.Term) bool) bool {
+			// the test's answer on that component decides a branch or is (part of) the answer
+			for _, b := range p.Blocks {
+				for _, in := range b.Instrs {
+					call, isCall := in.(*ssa.Call)
+					if !isCall || call.Referrers() == nil {
+						continue
+					}
+					t := c.O.Of(call)
+					if !(t.Kind == "call" && isPred(t.Name) && argOK(t.Args[len(t.Args)-1])) {
+						continue
+					}
+					var decides func(v ssa.Value, depth int) bool
+					decides = func(v ssa.Value, depth int) bool {
+						if depth > 2 || v.Referrers() == nil {
+							return false
+						}
+						for _, rf := range *v.Referrers() {
+							switch x := rf.(type) {
+							case *ssa.If, *ssa.Return, *ssa.Phi:
+								return true
+							case *ssa.UnOp:
+								if decides(x, depth+1) {
+									return true
+								}
+							}
+						}
+						return false
+					}
+					if decides(call, 0) {
+						return true
+					}
+				}
+			}
+			for _, ret := range core.Returns(p) {
+				t := c.O.Of(ret.Results[0])
+				d := c.ReachOf(ret)
+				inner := func(x *core.Term) bool {
+					return x.Kind == "call" && isPred(x.Name) && argOK(x.Args[len(x.Args)-1])
+				}
+				if t.Is("const", "false") && len(d) > 0 && d.Implies(c.M(false, inner)) {
+					return true
+				}
+				// `return pred(a) && pred(b)` / `return pred(a)`
+				if t.Contains(inner) && (t.Kind == "call" || t.Kind == "phi") {
+					return true
+				}
+			}
+			return false
+		}
+		callOn := func(suffix string) func(*core.Term) bool {
+			return func(a *core.Term) bool {
+				return a.Contains(func(x *core.Term) bool { return x.Kind == "call" && strings.HasSuffix(x.Name, suffix) })
+			}
+		}
+		for _, w := range []struct{ what, suffix string }{
+			{"channel element", "go/types.Chan).Elem"}, {"map key", "go/types.Map).Key"}, {"map element", "go/types.Map).Elem"},
+			{"parameters of a func type", "go/types.Signature).Params"}, {"results of a func type", "go/types.Signature).Results"},
+			{"members of a tuple", "go/types.Tuple).At"}, {"fields of a struct type", "go/types.Struct).Field"}, {"type arguments", "go/types.TypeList).At"},
+		} {
+			r.Check(rule, FnKey(p)+":looks-into:"+w.what, c.Pos(p.Pos()), fails(callOn(w.suffix)), "the nameability test does not look into the "+w.what+": `[]chan model.event`, `[]func(model.event)`, `[]model.Opt[model.event]`, `[]struct{ e model.event }` would be called nameable and spelled out")
+		}
+		// a package that the setup file does not import is written with its own name, which must not be taken by an import
+		tr := withLit(c.Reach(p).RetCond(0, true), c.M(true, assertOK("*types.Named")))
+		objPkg := func(t *core.Term) bool {
+			return t.Kind == "call" && strings.HasSuffix(t.Name, ").Pkg") && t.Contains(func(s *core.Term) bool { return s.IsCallTo("(*go/types.Named).Obj") })
+		}
+		noPkg := c.M(true, isNilCmp(objPkg))
+		local := c.M(false, func(t *core.Term) bool { return t.IsCallTo(fnIsExternalPkg) && objPkg(t.Args[1]) })
+		imported := c.M(true, func(t *core.Term) bool {
+			return t.Kind == "extract" && t.Name == "1" && t.Args[0].Kind == "call" && strings.HasSuffix(t.Args[0].Name, "ImportNames).LookupName") && t.Args[0].Args[1].IsCallTo("(*go/types.Package).Path")
+		})
+		nameFree := c.M(false, func(t *core.Term) bool {
+			return t.Kind == "extract" && t.Name == "1" && t.Args[0].Kind == "call" && strings.HasSuffix(t.Args[0].Name, "ImportNames).LookupPath") && t.Args[0].Args[1].IsCallTo("(*go/types.Package).Name")
+		})
+		r.Check(rule, FnKey(p)+":package-name-not-taken", c.Pos(p.Pos()), len(tr) > 0 && tr.Implies(noPkg, local, imported, nameFree), "a type of a package that the setup file does not import is called nameable although the package's own name – the qualifier that will be written – is the name of another import (`model.Tag` of play/storage/model next to an imported play/api/model): the import optimizer then binds it to the wrong package; true-condition for named types: "+c.failing(tr, noPkg, local, imported, nameFree))
 	}
 	n := 0
 	for _, s := range c.CallsTo(fnNewTypecast) {
@@ -718,7 +799,9 @@ func (c *Ctx) pathLenRule(rule string) {
 				}
 				n++
 				x, idx := c.O.Of(ia.X), c.O.Of(ia.Index)
-				r.Check(rule, FnKey(fn)+":indexes-the-same-slice", c.InstrPos(ia), x.Kind == "field" && x.Name == field && idx.Kind == "param", name+" indexes "+x.String()+"["+idx.String()+"], PathLen is the length of "+field)
+				// (or a slice made in parallel to it: make(…, len(<that slice>)) stored in every constructor)
+				same := x.Kind == "field" && (x.Name == field || c.sameLenFields(field, x.Name) || c.sameLenFields(x.Name, field))
+				r.Check(rule, FnKey(fn)+":indexes-the-same-slice", c.InstrPos(ia), same && idx.Kind == "param", name+" indexes "+x.String()+"["+idx.String()+"], PathLen is the length of "+field)
 			}
 		}
 	}
@@ -790,4 +873,52 @@ func (c *Ctx) templatedArgsRule(rule string) {
 		}
 	}
 	r.Floor(rule, "resolveTemplatedExpr call sites", n, 1)
+}
+
+// genericShapesRule: type parameters and type arguments that the emitted functions could not declare are refused.
+func (c *Ctx) genericShapesRule(rule string, which string) {
+	r := c.R
+	switch which {
+	case "interface":
+		r.Rule(rule, "parseMethods succeeds only if the converter interface has no type parameters (TypeParams().Len() == 0 for a *types.Named): the functions would mention type parameters that they do not declare (`func F(src *S[T]) …` – undefined: T)")
+		pm := c.MustMethod(rule, "/pkg/parser", "Parser", "parseMethods")
+		if pm == nil {
+			return
+		}
+		noParams := c.atMost(func(t *core.Term) bool {
+			return t.Kind == "call" && strings.HasSuffix(t.Name, "TypeParamList).Len") && t.Contains(func(s *core.Term) bool { return s.IsCallTo("(*go/types.Named).TypeParams") })
+		}, 0)
+		notNamed := c.M(false, assertOK("*types.Named"))
+		n := 0
+		for i, ret := range core.Returns(pm) {
+			if len(ret.Results) != 2 || !c.O.Of(ret.Results[1]).Is("const", "nil") {
+				continue
+			}
+			n++
+			d := c.ReachOf(ret)
+			r.Check(rule, sprintf("%s:return%d:no-type-parameters", FnKey(pm), i+1), c.InstrPos(ret), d.Implies(noParams, notNamed), "a generic converter interface is accepted: exit 0, and the functions refer to type parameters nobody declares; path: "+c.failing(d, noParams, notNamed))
+		}
+		r.Floor(rule, "success returns of parseMethods", n, 1)
+	case "receiver":
+		r.Rule(rule, "CreateFunction with a receiver (Opts.Receiver != \"\") succeeds only if the source operand, pointer removed, is a *types.Named without type arguments: a method is declared on a defined type, and on a generic one with its type parameters – `func (p *Page[int]) …` declares a type parameter called int")
+		cf := c.MustMethod(rule, "/pkg/builder", "FunctionBuilder", "CreateFunction")
+		if cf == nil {
+			return
+		}
+		srcType := func(t *core.Term) bool {
+			return t.Contains(func(s *core.Term) bool { return s.IsCallTo("(*" + pBM + "MethodEntry).SrcVar") })
+		}
+		isNamed := c.M(true, func(t *core.Term) bool { return assertOK("*types.Named")(t) && srcType(t) })
+		noArgs := c.atMost(func(t *core.Term) bool {
+			return t.Kind == "call" && strings.HasSuffix(t.Name, "TypeList).Len") && t.Contains(func(s *core.Term) bool { return s.IsCallTo("(*go/types.Named).TypeArgs") }) && srcType(t)
+		}, 0)
+		noRecv := c.M(true, eqConst(isField(fldReceiver), `""`))
+		rets := c.successReturns(cf)
+		for i, ret := range rets {
+			d := c.ReachOf(ret)
+			r.Check(rule, sprintf("%s:success%d:receiver-is-a-defined-type", FnKey(cf), i+1), c.InstrPos(ret), d.Implies(noRecv, isNamed), "a receiver that is not a defined type (an unnamed struct) is accepted; path: "+c.failing(d, noRecv, isNamed))
+			r.Check(rule, sprintf("%s:success%d:receiver-without-type-arguments", FnKey(cf), i+1), c.InstrPos(ret), d.Implies(noRecv, noArgs), "a receiver with type arguments is accepted: `func (p *Page[int]) ToRow()` declares a type parameter named int; path: "+c.failing(d, noRecv, noArgs))
+		}
+		r.Floor(rule, "success returns of CreateFunction", len(rets), 1)
+	}
 }
